@@ -205,6 +205,8 @@ structure Reader where
   escaped : Option Nat := none
   /-- end line indexes of the nested line-macro expansions enclosing the cursor, innermost first -/
   expansions : List Nat := []
+  /-- number of line-macro expansions around this reader (the content of a container block has a reader of its own) -/
+  depth : Nat := 0
 deriving Repr, DecidableEq, Inhabited
 
 /-- The writer buffer, most recent chunk first. -/
